@@ -21,10 +21,8 @@ _LOW3 = '3 words: low and middle word fully symbolic (2^128, shared by the sweep
 _TH = {'tier': 'thorough'}
 _D15 = 'den = any of 1..=15'
 _RATIO_NOTE = ('Repr::to_f32/to_f64 harnesses: dashu-int operations stubbed by their inline-operand arm (UBig::div_rem(&UBig), '
-               'UBig << usize, &UBig << usize, &IBig << usize; heap arms = panic): trusted to equal the real arms. Known-finding '
-               'region (double rounding: x / 2^shift is not an integer and its nearest-even integer times 2^shift is a midpoint of '
-               'two neighbouring floats) assumed away in the main harnesses, see vk_rf_tie_region. Out of reach (operands > 128 '
-               'bits): subnormal results, f64 overflow, the f64 underflow cut-off `shift < -1074 - 53` (3 / 2^1076 -> 0.0).')
+               'UBig << usize, &UBig << usize, &IBig << usize; heap arms = panic): trusted to equal the real arms. Out of reach '
+               '(operands > 128 bits): subnormal results, f64 overflow (covered by the unbounded Verus unit ratio_to_float).')
 
 KANI = {
     # bounded companion of the Verus unit int_to_float on the real code: UBig/IBig::to_f32/to_f64 for heap integers.
@@ -54,10 +52,8 @@ KANI = {
         },
     },
     # bounded companion of the Verus unit ratio_to_float on the real rational/src/convert.rs (Repr::to_f32/to_f64,
-    # TryFrom<Repr> for UBig/IBig, TryFrom<RBig> for f32/f64).  The double-rounding region (see _RATIO_NOTE) is assumed
-    # away in the to_f32/to_f64 harnesses.  The harness file also contains two harnesses of kind 'finding' that FAIL on
-    # the unchanged tree (they witness genuine defects); they are listed in _RATIO_FINDINGS and must be moved into
-    # 'harnesses' together with `known:` entries in known_findings.txt (or dropped once /repo is fixed).
+    # TryFrom<Repr> for UBig/IBig).  History: the double-rounding region used to be assumed away and witnessed by two
+    # 'finding' harnesses; since the repair of to_f32/to_f64 the harnesses check the full property.
     # The harnesses vk_ratio_to_float_k_try_f32 / _try_f64 (+ _wide_num) for `TryFrom<RBig> for f32/f64` are NOT registered
     # any more: since the fix of the unwrap panic the code shifts the numerator by its (symbolic) number of trailing
     # zeros, which CBMC cannot handle (timeout / out of memory); the Verus unit ratio_try_float covers that function.
@@ -76,14 +72,6 @@ KANI = {
             'vk_ratio_to_float_k_to_ibig': {'kind': 'bounded', 'bound': '|num| < 2^15, den = any of 1..=15 (non-integer value if den > 1)'},
         },
     },
-}
-
-# NOT registered (they FAIL on the unchanged tree by design; need `known:` entries in known_findings.txt first):
-_RATIO_FINDINGS = {
-    'vk_ratio_to_float_k_finding_f32_double_rounding': {'kind': 'finding', 'bound': 'as f32_critical, inside the region',
-        'note': 'double rounding in Repr::to_f32: 117440522/7 = 16777217.43 -> Inexact(16777216.0, Negative), correct 16777218.0'},
-    'vk_ratio_to_float_k_finding_f64_double_rounding': {'kind': 'finding', 'bound': 'as f64_critical, inside the region',
-        'note': 'double rounding in Repr::to_f64: ((2^53+1)*7+3)/7 -> Inexact(2^53, Negative), correct 2^53+2'},
 }
 
 PROP_UNITS = {
